@@ -74,6 +74,16 @@ def inputs(rng, tier):
         both_orders("equator", rng.uniform(-0.01, 0.01), rng.uniform(-180, 180))
         both_orders("anti", rng.uniform(-89, 89), rng.choice((-1, 1)) * rng.uniform(179.99, 180) % 360 - (360 if rng.random() < 0.5 else 0))
         both_orders("meridian", rng.uniform(-89, 89), rng.uniform(-0.01, 0.01))
+    # across a pole: one report's latitude decodes just beyond +-90 (no such place), the other's just inside; either order,
+    # either report the latest one - the pair cannot stem from one location
+    for _ in range(q(300, 6000)):
+        s = rng.choice((-1, 1))
+        lon = rng.uniform(-180, 180)
+        inside, beyond = s * (90 - rng.uniform(0.0005, 0.04)), s * (90 + rng.uniform(0.0005, 0.04))
+        for lat_e, lat_o in ((beyond, inside), (inside, beyond)):
+            e, o = encode(lat_e, lon, 0), encode(lat_o, lon, 1)
+            add("beyondpole", (0,) + e, (1,) + o)
+            add("beyondpole", (1,) + o, (0,) + e)
     for n in range(2, 60):
         t = transition_lat(n)
         for _ in range(q(12, 400)):
